@@ -9,16 +9,19 @@ import GocoinV.Proofs.C08_Zp
 namespace GocoinV.C08
 open GocoinV.Gen.Field5x52
 
+theorem sqrN_succ (k : Nat) (x : Fe) : sqrN (k+1) x = sqrN k (sqr x) := iterN_succ sqr k x
+theorem sqrN_zero (x : Fe) : sqrN 0 x = x := iterN_zero sqr x
+
 theorem sqrN_S (n : Nat) : ∀ {x : Fe} {v : F}, FeS x 1 v → FeS (sqrN n x) 1 (v ^ (2 ^ n)) := by
   induction n with
   | zero =>
     intro x v h
-    show FeS x 1 (v ^ 2 ^ 0)
-    rw [pow_zero, pow_one]; exact h
+    rw [sqrN_zero, pow_zero, pow_one]; exact h
   | succ k ih =>
     intro x v h
     have h2 := ih (h.sqr (by decide))
     rw [← pow_two, ← pow_mul, ← pow_succ'] at h2
+    rw [sqrN_succ]
     exact h2
 
 /-- one link of the chain: `x.Sqr` k times, then `Mul` by y -/
